@@ -34,9 +34,28 @@ func (e *UserAs) As(target interface{}) bool {
 func H_C14_Compat(v *sym.V) {
 	g := newG(v, sym.REGNN)
 	var b *gen.B
-	if v.Choice("leafkind", 2) == 0 {
+	samePtr := false
+	switch lk := v.Choice("leafkind", 3); {
+	case lk == 0:
 		b = g.Leaf("e.0", gen.Cat(gen.AllLeaves))
-	} else {
+	case lk == 2:
+		// a multi-cause node whose first branch holds a match below a wrapper and
+		// whose second branch is a match itself: depth-first order decides
+		deep, direct := &gen.UserPlain{Msg: g.StrU("deep.m")}, &gen.UserPlain{Msg: g.StrU("direct.m")}
+		first := errors.Wrap(deep, "w")
+		var multi error
+		switch v.Choice("multikind", 3) {
+		case 0:
+			multi = errors.Join(first, direct)
+		case 1:
+			multi = stderrors.Join(first, direct)
+		case 2:
+			multi = fmt.Errorf("%w & %w", first, direct)
+		}
+		b = &gen.B{Err: multi, Text: multi.Error(), Kinds: []gen.Kind{gen.LJoin}}
+		b.Leaf = errors.UnwrapAll(multi)
+		samePtr = true
+	default:
 		m := g.StrU("as.m")
 		b = &gen.B{Err: &UserAs{m}, Text: m, Kinds: []gen.Kind{gen.LUserPlain}}
 		b.Leaf = b.Err
@@ -47,7 +66,7 @@ func H_C14_Compat(v *sym.V) {
 	for i := 0; i < n; i++ {
 		b = g.Wrap(fmt.Sprintf("e.%d", i+1), b, gen.Cat(gen.MsgWrappers, gen.AnnotWrappers, gen.ForeignWrappers))
 		switch b.Kinds[0] {
-		case gen.WFmtPrefix, gen.WFmtSuffix, gen.WPathError, gen.WLinkError, gen.WSyscallError, gen.WOpError, gen.WUserPrefix, gen.WUserFull, gen.WUserFmt, gen.WUserSafeFmt:
+		case gen.WFmtPrefix, gen.WFmtSuffix, gen.WPathError, gen.WLinkError, gen.WSyscallError, gen.WOpError, gen.WUserPrefix, gen.WUserFull, gen.WUserFmt, gen.WUserSafeFmt, gen.WUserGlue:
 			onlyCause = false // these expose Unwrap() but no Cause()
 		}
 	}
@@ -84,6 +103,9 @@ func H_C14_Compat(v *sym.V) {
 	v.Assert("as-ptr-agree", g1 == w1)
 	if g1 && w1 {
 		v.Assert("as-ptr-value", t1.Msg == s1.Msg)
+		if samePtr {
+			v.Assert("as-ptr-same-object", t1 == s1)
+		}
 	}
 	var t2, s2 isIface
 	g2, w2 := errors.As(e, &t2), stderrors.As(e, &s2)
